@@ -111,6 +111,7 @@ class Interp(object):
         self.cuts = 0
         self.native_calls = None     # set() of qualified names of natively executed callees when enabled
         self.exc_stack = []
+        self.control_exceptions = (PathAbort, BoundExceeded, Unsupported, HarnessError, Pruned)
         from . import models as M
         from . import rope as _rope
         M.install(self)
@@ -550,10 +551,16 @@ class Interp(object):
 
     def exec_try(self, s, env):
         st = None
+        control = False
         try:
             try:
                 st = yield from self.exec_block(s.body, env)
-            except (PathAbort, BoundExceeded, Unsupported, HarnessError, GeneratorExit, Pruned):
+            except GeneratorExit:
+                raise
+            except self.control_exceptions:
+                # the explorer (or the environment model) is abandoning this execution: the code under test must not
+                # get to run its handlers or finally blocks on the way out
+                control = True
                 raise
             except BaseException as e:
                 handler = None
@@ -580,7 +587,7 @@ class Interp(object):
                 if st is None:
                     st = yield from self.exec_block(s.orelse, env)
         finally:
-            if s.finalbody:
+            if s.finalbody and not control:
                 # run the finally body; a control transfer inside it overrides
                 fst = _drive_nested(self, s.finalbody, env)
                 if fst is not None:
@@ -599,7 +606,7 @@ class Interp(object):
             self.assign(item.optional_vars, val, env)
         try:
             st = yield from self.exec_with(s, i + 1, env)
-        except (PathAbort, BoundExceeded, Unsupported, HarnessError, GeneratorExit, Pruned):
+        except (GeneratorExit,) + self.control_exceptions:
             raise
         except BaseException as e:
             self.exc_stack.append(e)
